@@ -301,6 +301,64 @@ func c06Pairs(r *RNG, n int) [][2][]byte {
 	return out
 }
 
+// c06Members: the answers of a poll, embedded objects without ids whose multi-language names share their
+// first entry and differ in a later one; after either round trip each answer still has its own texts
+func c06Members(s []byte) string {
+	mk := func(second string) *ap.Object {
+		return &ap.Object{Type: ap.NoteType, Name: ap.NaturalLanguageValues{{Ref: "en", Value: append(ap.Content{}, s...)}, {Ref: "de", Value: ap.Content(second)}}}
+	}
+	q := &ap.Question{ID: "https://example.com/q", Type: ap.QuestionType, OneOf: ap.ItemCollection{mk("Andere"), mk("Sonstiges")}}
+	q.Tag = ap.ItemCollection{mk("eins"), mk("zwei"), mk("drei")}
+	check := func(back ap.Item, codec string) string {
+		var viol string
+		_ = ap.OnQuestion(back, func(b *ap.Question) error {
+			for _, pr := range []struct {
+				name string
+				l    ap.Item
+				want []string
+			}{{"oneOf", b.OneOf, []string{"Andere", "Sonstiges"}}, {"tag", b.Tag, []string{"eins", "zwei", "drei"}}} {
+				var got []string
+				_ = ap.OnItemCollection(pr.l, func(col *ap.ItemCollection) error {
+					for _, m := range *col {
+						_ = ap.OnObject(m, func(o *ap.Object) error {
+							if len(o.Name) == 2 && bytes.Equal(o.Name[0].Value, s) {
+								got = append(got, string(o.Name[1].Value))
+							} else {
+								got = append(got, fmt.Sprintf("?%v", o.Name))
+							}
+							return nil
+						})
+					}
+					return nil
+				})
+				if fmt.Sprint(got) != fmt.Sprint(pr.want) {
+					viol = fmt.Sprintf("%s: the members without an id of %s came back as %q, written %q (shared first text %q)", codec, pr.name, got, pr.want, s)
+				}
+			}
+			return nil
+		})
+		return viol
+	}
+	var viol string
+	if p, msg := guard(func() {
+		if b, err := ap.MarshalJSON(q); err == nil {
+			if back, err := ap.UnmarshalJSON(b); err == nil {
+				viol = check(back, "json")
+			}
+		}
+		if viol == "" {
+			if b, err := ap.GobEncode(q); err == nil {
+				if back, err := ap.GobDecode(b); err == nil {
+					viol = check(back, "gob")
+				}
+			}
+		}
+	}); p {
+		return "panic: " + msg
+	}
+	return viol
+}
+
 func c06Oracle(c *Ctx, propIdx int, pairs [][2][]byte, codec string) {
 	in := T{"prop": propIdx, "codec": codec}
 	var pl []interface{}
@@ -357,6 +415,25 @@ func init() {
 				c06Oracle(c, (pi+1)%len(c06Props), pairs, "json")
 				c06Oracle(c, (pi+1)%len(c06Props), pairs, "gob")
 			}
+			if i%5 == 0 {
+				// the same text under several entries: the value without a language equal to a translation, two
+				// languages sharing one text
+				pairs := c06Pairs(c.R, 2+c.R.Intn(2))
+				for k := range pairs {
+					pairs[k][1] = s
+					pairs[k][0] = []byte(c06Tags[k%len(c06Tags)]) // pairwise distinct references
+				}
+				pairs[c.R.Intn(len(pairs))][0] = []byte("-")
+				c06Oracle(c, (pi+3)%len(c06Props), pairs, "json")
+				c06Oracle(c, (pi+3)%len(c06Props), pairs, "gob")
+			}
+			if i%11 == 0 {
+				if v := c06Members(s); v != "" {
+					c.Fail("C06/json", v, T{"members": bytesToInts(s)})
+				}
+				c.Count(T{"members": bytesToInts(s)}, true)
+				c.Tag("oracle/list-members-without-id")
+			}
 			if i%7 == 0 {
 				p1 := [][2][]byte{{[]byte(c.R.Pick(c06Tags)), s}}
 				c06Oracle(c, (pi+2)%len(c06Props), p1, "json")
@@ -373,6 +450,9 @@ func init() {
 		var in map[string]interface{}
 		if err := json.Unmarshal(input, &in); err != nil {
 			return "bad replay input"
+		}
+		if m, ok := in["members"]; ok {
+			return c06Members(intsToBytes(m))
 		}
 		var pairs [][2][]byte
 		for _, e := range asList(in["pairs"]) {
